@@ -12,7 +12,7 @@ from core import Case
 
 PROP = 'C09'
 COQ_FILES = ['Extract/C09.v', 'Proofs/WalletKeys.v', 'Proofs/WalletKeysBook.v', 'Proofs/WalletKeysIssue.v',
-             'Proofs/WalletKeysTables.v', 'Properties/C09.v']
+             'Proofs/WalletKeysTables.v', 'Proofs/WalletKeysReach.v', 'Proofs/WalletKeysPaths.v', 'Properties/C09.v']
 DRIVER = 'c09'
 IMPL = 'harness/impl/c09_impl.py'
 ALLOWED_AXIOMS = []
@@ -38,6 +38,18 @@ ASSUMPTIONS = [
     'multisig wallets are PROBED: their histories are judged by the independent oracle alone (BIP48/BIP45 paths, m-of-n '
     'script addresses over the cosigners\' BIP32 keys, index invariant after every command), not compared with a model',
     'WalletKey.public() is modelled as repaired by fixes/C09-1 (returns a stripped copy)',
+    'reach: the book carries the depth and the privacy of the main key (w_root_depth, w_root_private); the guard of '
+    'keys_for_path / new_account is modelled literally (public OR below depth 0).  Two switches of the configuration '
+    '(w_guard_reach, w_acct_from_path) say whether the library has fixes/C09-5 / C09-6; the harness asks the library once '
+    'per run (probe_library: three requests) and passes the answer in every creation command, so the model mirrors the '
+    'library it is compared with; the theorems about other networks / accounts hold for w_guard_reach = true and the '
+    'unchanged behaviour is refuted by Examples (known classes)',
+    'judged by the independent oracle alone (requests `probe`, `msrun`; no model): single-key wallets, level_offset, '
+    'cosigner_id on wallets without cosigners, relative paths that name the account level on account-level wallets, '
+    'paths rooted at M on master wallets, multisig cosigner wallets',
+    'domain of the reach rule: a second network always has another BIP44 coin type than the wallet\'s (networks that '
+    'share a coin type share their paths); change flags 0 / 1; hardened change / index levels only on watch-only '
+    'wallets (where they must be refused)',
 ]
 RULE = ('all networks x witness types at creation with rotating ways of creating the wallet (HDKey from seed, sentence + '
         'password, HDKey.from_passphrase, Mnemonic(language).to_seed in nine languages, extended private / account public / '
@@ -48,10 +60,16 @@ RULE = ('all networks x witness types at creation with rotating ways of creating
         'wallet_create_or_open) over accounts 0..3, mixed witness types and second networks; issuance histories that name '
         'indices out of order (high before low, repeats, overlapping bulk ranges) before and between new keys; a '
         'creation / restoration matrix per sentence; multisig 1..3-of-2..3 cosigner wallets on eight networks; table paths '
-        'for all six key structures; a case is non-trivial when a wallet was created and keys were handed out; distinct by '
-        'request')
+        'for all six key structures; reach streams: every way of creating a wallet (master private key, account-level '
+        'private / public key, single key, multisig cosigner sets; every witness type, rotating networks, default accounts '
+        '0..3) x every key-handing entry point (new_key, new_key_change, new_keys, get_key(s)(_change), key_for_path in '
+        'every path form, keys_for_path bulk, new_account, public_master, account) x arguments that do and do not fit the '
+        'configuration (another witness type / network / account, change 1, hardened levels on watch-only wallets, full '
+        'paths above the main key, paths deeper than the key path, level offsets above and below the main key, cosigner '
+        'positions in and out of range), each misfit asked twice in a row, followed by ordinary requests; '
+        'a case is non-trivial when a wallet was created and keys were handed out; distinct by request')
 IMPL_TIMEOUT = 3000
-WORKERS = 8
+WORKERS = 10
 
 # ------------------------------------------------------------------ independent oracle: curve, BIP32, encoders
 _P = 2 ** 256 - 2 ** 32 - 977
@@ -2256,8 +2274,15 @@ def _main_wifs(out):
     return res
 
 
+_WITNESS_OUT = {}
+
+
 def reproduce_known(entry, rundir):
-    rc, out, err = core.run_impl(IMPL, [entry['witness']['request']], rundir)
+    req = entry['witness']['request']
+    if req in _WITNESS_OUT:
+        out = [_WITNESS_OUT[req]]
+    else:
+        rc, out, err = core.run_impl(IMPL, [req], rundir)
     if len(out) != 1:
         return False
     if 'impl_answer' in entry['witness']:
@@ -2456,6 +2481,13 @@ def main(tier, seed, replay=None):
         if nviol > 5:
             res.notes.append('%d further disagreements not listed' % (nviol - 5))
         res.cov['key_tokens_compared'] = nkeys
+    # the witnesses of all recorded findings in one adapter process
+    wreqs = sorted(set(e['witness']['request'] for e in core.load_known(PROP)
+                       if e.get('status') == 'known' and 'request' in e.get('witness', {})))
+    if wreqs:
+        rc_w, out_w, err_w = core.run_impl(IMPL, wreqs, rundir)
+        if len(out_w) == len(wreqs):
+            _WITNESS_OUT.update(zip(wreqs, out_w))
     for e in core.load_known(PROP):
         if e.get('status') != 'known':
             continue
